@@ -173,7 +173,7 @@ type outcome struct {
 	hint      time.Duration
 	network   bool // connection closed: retryable only when the client sees a temporary error
 	partial   bool
-	longMsg   int // partial success: pad the rejection message to this many bytes
+	longMsg   int  // partial success: pad the rejection message to this many bytes
 	countOnly bool // partial success: a rejected count and no message at all
 	msgOnly   bool // partial success: a message and a rejected count of zero (a warning)
 }
